@@ -514,7 +514,21 @@ func runC05Needs(c *Ctx) {
 			}
 		}
 	})
-	if okOut {
+	// ... and what each entry carries as its member "outputs" is that object, filled from the job the entry stands for (the
+	// one looked up under the entry's key), or the outputs type of that job's workflow call
+	whyOut := ""
+	eachInstr(fn, func(_ *ssa.BasicBlock, _ int, in ssa.Instruction) {
+		if mu, ok := in.(*ssa.MapUpdate); ok {
+			if f, base := fieldLoad(mu.Map); f == "ObjectType.Props" && filled[base] {
+				if w := needsEntryOutputs(fn, mu); w != "" {
+					whyOut = w
+				}
+			}
+		}
+	})
+	if okOut && whyOut != "" {
+		c.bad("(*RuleExpression).populateDependantNeedsTypes|outputs", fn.Pos(), "needs.<job_id>.outputs does not hold the declared outputs of the needed job: "+whyOut)
+	} else if okOut {
 		c.ok("(*RuleExpression).populateDependantNeedsTypes|outputs", fn.Pos(), "strict object filled from the needed job's declared outputs")
 	} else {
 		c.bad("(*RuleExpression).populateDependantNeedsTypes|outputs", fn.Pos(), "outputs of a needed job are not a strict object of its declared outputs")
